@@ -212,10 +212,13 @@ fn gen_scalar(rng: &mut Rng, out: &mut Vec<String>, n: usize) {
 /// diagonally dominant nonlinear system: f_i = d_i x_i + sum_j a_ij sin(x_j) (or x_j^2 / 8) - c_i with known root
 fn dd_system<T: Ev + Re>(rng: &mut Rng, n: usize, root: &[T]) -> (VFn<T>, Vec<E<T>>) {
     let mut comps = Vec::new();
+    let neg_diag = rng.chance(50); let dens = *rng.pick(&[20usize, 50, 80]); let upper_only = rng.chance(30);
     for i in 0..n {
-        let d = 4.0 + rng.below(3) as f64;
+        // diagonal of either sign; the coupling is dense, sparse or one-sided (exact zeros below / above the diagonal
+        // of the Jacobian, so that the pivot search of the linear solve meets zero candidates)
+        let d = (4.0 + rng.below(3) as f64) * if neg_diag && rng.chance(70) { -1.0 } else { 1.0 };
         let mut e: E<T> = mul(k(d), v(i));
-        for j in 0..n { if j != i && rng.chance(50) { let a = rng.range(-2, 2) as f64 / 4.0; if a != 0.0 { let term = if rng.chance(50) { Expr::Sin(Box::new(v(j))) } else { mul(v(j), v(j)) }; e = add(e, mul(k(a), term)); } } }
+        for j in 0..n { if j != i && rng.chance(dens) && !(upper_only && j < i) { let a = rng.range(-2, 2) as f64 / 4.0; if a != 0.0 { let term = if rng.chance(50) { Expr::Sin(Box::new(v(j))) } else { mul(v(j), v(j)) }; e = add(e, mul(k(a), term)); } } }
         let c = e.eval(root);
         comps.push(sub(e, Expr::Const(c)));
     }
